@@ -9,7 +9,7 @@ changed, objects as creation indices) are compared after every call.
 Oracle: `kernel_ops.wf_oracle` — the invariant itself on the real objects through public accessors only.
 Alphabet tie (round 3): `kernel_ops.check_alphabet` introspects the real classes (Graph, Function, GraphView, Node,
 Value, the tracked lists, GraphInitializers, Attributes, Tape, Builder, onnx_ir.convenience, onnx_ir.tape) and
-compares every public member with `kernel_ops.API_TABLE` (mapped to a model operation and exercised >= 20 times
+compares every public member with `kernel_ops.API_TABLE` (mapped to a model operation and exercised >= 100 times
 per run / outside the alphabet with a reason / query); an unclassified member is a broken correspondence.
 """
 from __future__ import annotations
